@@ -214,6 +214,7 @@ def subject_seg(r, nr):
     descs = [sources.seg_description(k + 1, tracking=r.random() < 0.3) for k in range(nseg)]
     kw = dict(_ids(r), **_equip())
     inputs_extra = {}
+    inputs_extra_donor = {}
     if kind == 'enhanced' and r.random() < 0.5:
         # a multi-frame source whose shared pixel measures carry no SpacingBetweenSlices (the library computes it)
         del src[0].SharedFunctionalGroupsSequence[0].PixelMeasuresSequence[0].SpacingBetweenSlices
@@ -243,10 +244,27 @@ def subject_seg(r, nr):
     styp_arg = styp if r.random() < 0.5 else styp.value
     if r.random() < 0.3:
         src = tuple(src)
-    if r.random() < 0.3:
+    form = r.choice(['list', 'list', 'tuple', 'sequence', 'donor', 'donor'])
+    if form == 'tuple':
         descs = tuple(descs)
+    elif form == 'sequence':
+        from pydicom.sequence import Sequence as _Seq
+        descs = _Seq(descs)
+    elif form == 'donor':
+        # the very SegmentSequence of another segmentation (re-encoding it): the donor is an argument too
+        dsrc = sources.ct_series(1, 2, 2)
+        dmask = np.zeros((1, 2, 2, nseg), np.uint8)
+        dmask[0, 0, 0, :] = 1
+        if nseg > 1:
+            dmask[0, 0, 0, 1:] = 0
+            for k in range(1, nseg):
+                dmask[0, min(k, 1), k % 2, k] = 1
+        donor = hd.seg.Segmentation(dsrc, dmask, ST.BINARY, descs, new_uid(), 1, new_uid(), 1, 'm', 'mm', '1', '1',
+                                    omit_empty_frames=False)
+        descs = donor.SegmentSequence
+        inputs_extra_donor = {'donor_segmentation': donor}
 
-    def call(source_images, pixel_array, segment_descriptions, **more):
+    def call(source_images, pixel_array, segment_descriptions, donor_segmentation=None, **more):
         return hd.seg.Segmentation(source_images, pixel_array, styp_arg, segment_descriptions, **more, **kw)
     return {'name': 'seg.Segmentation', 'variant': (kind, styp.value, dtype, stacked, arr.ndim, how, nseg > 1,
                                                      kw.get('max_fractional_value'), tuple(sorted(inputs_extra)), txt_class),
@@ -626,22 +644,50 @@ def subject_legacy(r, nr):
     src = sources.ct_series(n, r.randint(2, 5), r.randint(2, 5))
     sop = {'CT': '1.2.840.10008.5.1.4.1.1.2', 'MR': '1.2.840.10008.5.1.4.1.1.4', 'PET': '1.2.840.10008.5.1.4.1.1.128'}[which]
     mod = {'CT': 'CT', 'MR': 'MR', 'PET': 'PT'}[which]
-    for d in src:
+    from pydicom.valuerep import DA, TM
+    optional = {
+        'ContentDate': '20200102', 'ContentTime': '010203', 'AcquisitionDateTime': '20200101010203.000000',
+        'SeriesDate': '20200101', 'SeriesTime': '010203', 'InstanceCreationDate': '20200103', 'InstanceCreationTime': '040506',
+        'WindowCenter': 40, 'WindowWidth': 400, 'LossyImageCompression': '00', 'BurnedInAnnotation': 'NO',
+        'PatientPosition': 'HFS', 'BodyPartExamined': 'CHEST', 'SeriesDescription': 'series', 'ProtocolName': 'protocol',
+        'PresentationLUTShape': 'IDENTITY', 'VolumetricProperties': 'VOLUME', 'PixelPresentation': 'MONOCHROME',
+        'ContentQualification': 'RESEARCH', 'ImageComments': None, 'StationName': 'st', 'InstitutionName': 'inst',
+        'PatientAge': '040Y', 'PatientWeight': 70.5, 'StudyDescription': 'study', 'FrameOfReferenceUID': None,
+        'PositionReferenceIndicator': '', 'TemporalPositionTimeOffset': 0.0, 'IrradiationEventUID': None,
+    }
+    chosen = [k for k in optional if r.random() < 0.6]
+    typed_dates = r.random() < 0.7
+    mixed_types = r.random() < 0.4
+    for i, d in enumerate(src):
         d.SOPClassUID = sop
         d.file_meta.MediaStorageSOPClassUID = sop
         d.Modality = mod
         d.RescaleIntercept = 0
         d.RescaleSlope = 1
         d.SliceThickness = 1.0
-        d.ImageType = ['ORIGINAL', 'PRIMARY', 'AXIAL']
+        d.ImageType = ['DERIVED', 'SECONDARY', 'AXIAL'] if (mixed_types and i == len(src) - 1) else ['ORIGINAL', 'PRIMARY', 'AXIAL']
         d.AcquisitionNumber = 1
         d.KVP = 120.0 if which == 'CT' else None
+        d.InstanceNumber = i + 1
+        if typed_dates:       # the per-frame acquisition date time is only derived from date / time objects
+            d.AcquisitionDate = DA('20200101')
+            d.AcquisitionTime = TM('010203')
+        for k in chosen:
+            v = optional[k]
+            if k == 'ImageComments':
+                v = f'comment {i}'            # varies per instance: goes to the per-frame unassigned attributes
+            elif k == 'IrradiationEventUID':
+                v = new_uid()
+            elif k == 'FrameOfReferenceUID':
+                continue
+            setattr(d, k, v)
     cls = getattr(hd.legacy, f'LegacyConvertedEnhanced{which}Image')
     ids = _ids(r)
 
     def call(legacy_datasets):
         return cls(legacy_datasets=legacy_datasets, **ids)
-    return {'name': 'legacy.' + cls.__name__, 'variant': (which, n), 'call': call, 'inputs': {'legacy_datasets': src}}
+    return {'name': 'legacy.' + cls.__name__, 'variant': (which, n, len(chosen), typed_dates, mixed_types), 'call': call,
+            'inputs': {'legacy_datasets': src}}
 
 
 # ------------------------------------------------------------------------------------------ content classes
@@ -745,6 +791,23 @@ def subject_content(r, nr):
     return {'name': 'content bundle', 'variant': (how,), 'call': call,
             'inputs': {'images': img, 'segmentation': seg, 'point2d': p2, 'point3d': p3, 'ellipsoid': ell, 'lut_data': lut,
                        'extra_items': extra}}
+
+
+def vary_containers(inputs, r):
+    """every list of data sets among the arguments in another accepted container form (tuple, pydicom Sequence) now and then;
+    returns {argument: form}"""
+    from pydicom.dataset import Dataset
+    from pydicom.sequence import Sequence as _Seq
+    forms = {}
+    for k, v in list(inputs.items()):
+        if type(v) is list and v and all(isinstance(i, Dataset) for i in v):
+            f = r.choice(['list', 'list', 'tuple', 'sequence'])
+            if f == 'tuple':
+                inputs[k] = tuple(v)
+            elif f == 'sequence':
+                inputs[k] = _Seq(v)
+            forms[k] = f
+    return forms
 
 
 SUBJECTS = [subject_content, subject_seg, subject_seg, subject_seg, subject_seg_volume, subject_pm, subject_pm, subject_sc, subject_sr,
